@@ -156,3 +156,18 @@ contract("C04", "gibbs_roundtrip", native=False, replay_with="limits_native")(_g
 contract("C04", "pca_roundtrip", native=False, replay_with="limits_native")(_pr)
 contract("C04", "hmc_roundtrip", native=False, replay_with="limits_native")(_hr)
 contract("C04", "ensemble_roundtrip", native=False, replay_with="limits_native")(_er)
+
+
+# "for Hamiltonian trajectories the momentum component is reversed exactly when its coordinate was folded an odd number of times":
+# the fold-with-parity map (Bounds.reflect_momenta) and its use after every drift of the real bounded_leapfrog loop are C07
+# contracts; they are obligations of this property as well (a trajectory that stays inside the limits with the wrong momentum
+# parity breaks C04's clause although no recorded point leaves the box)
+from contracts.c07_hamiltonian import reflect_momenta as _rm, bounded_leapfrog_structure as _bls
+contract("C04", "reflect_momenta", native=False, replay_with="limits_native")(_rm)
+contract("C04", "bounded_leapfrog_structure", native=False, replay_with="limits_native")(_bls)
+
+# far overshoots of the real trajectory (fold + momentum parity against a mirror-by-mirror reference): bounded companion written
+# with the C07 contracts, run under this property as well
+from pyvc.vc import bounded as _bounded
+from contracts.c07_hamiltonian import hmc_fold_parity_native as _hfp
+_bounded("C04", "hmc_fold_parity_native", native_runs=30)(_hfp)
